@@ -195,7 +195,9 @@ class InputScope(PSBTScope):
     @property
     def vin(self):
         return TransactionInput(
-            self.txid, self.vout, sequence=(self.sequence or 0xFFFFFFFF)
+            self.txid,
+            self.vout,
+            sequence=(self.sequence if self.sequence is not None else 0xFFFFFFFF),
         )
 
     @property
@@ -649,7 +651,7 @@ class PSBT(EmbitBase):
     @property
     def tx(self):
         return self.TX_CLS(
-            version=self.tx_version or 2,
+            version=self.tx_version if self.tx_version is not None else 2,
             locktime=self.locktime or 0,
             vin=[inp.vin for inp in self.inputs],
             vout=[out.vout for out in self.outputs],
